@@ -26,9 +26,11 @@ def _h(hid, desc, domain, quick, thorough=None, tiers=('quick', 'thorough')):
         d = dict(d)
         n = d.pop('ncases')
         d['LIBSETS'] = '"%s"' % d['LIBSETS']
-        # every loop of this query runs on concrete data: the global bound is only a cap (30 passes of the ordering
-        # loop are far more than 3 libraries with 6 edges can need), recursion is bounded explicitly
-        b[tier] = dict(defs=d, unwind=18, unwindset=_US, cap=100 + 25 * n)
+        # every loop of this query runs on concrete data: the global bound is only a cap.  It must cover the harness'
+        # own enumeration loop (CBMC counts the code loop cumulatively over the library assignments); 18 passes of
+        # the ordering loop are far more than 3 libraries with 6 edges can need; recursion is bounded explicitly
+        total = (d['CODE_TO'] - d['CODE_FROM']) * (d['LIBSETS'].count(';') + 1)
+        b[tier] = dict(defs=d, unwind=max(18, total + 4), unwindset=_US, cap=200 + 60 * n)
     return dict(id=hid, property='C16', src='c16_order.cxx', entry='harness_c16_library_order', tus=_TUS, cut=_CUT,
                 models=['printf.c'], cbmc_flags=_FS, desc=desc, domain=domain, nonterm_is_violation=True, bounds=b, tiers=tiers,
                 oracle='libraries referenced = libraries contributing a type/function to the module, each exactly once; when the '
@@ -49,13 +51,13 @@ for _d3 in (0, 1, 2, 3, 4):
                             'dependency codes %d..%d (base 5, one digit per class: none/first/second/both/both)' % (25 * _d3 + _lo, 25 * _d3 + _hi - 1),
                             _q, _t, tiers=('thorough',) if _d3 == 3 else ('quick', 'thorough')))
 HARNESSES.append(_h('c16_funclib', 'a library that contributes only a function, next to two class libraries',
-                    '2 global classes in libraries a,b (thorough: also b,a and a,a), one function in library c; every dependency set',
+                    '2 global classes in libraries a,b (thorough: also b,a), one function in library c; every dependency set',
                     dict(NT=2, LIBSETS='abc', CODE_FROM=0, CODE_TO=10, SKIP3=1, ncases=8),
-                    dict(NT=2, LIBSETS='abc;bac;aab', CODE_FROM=0, CODE_TO=25, SKIP3=0, ncases=75)))
+                    dict(NT=2, LIBSETS='abc;bac', CODE_FROM=0, CODE_TO=25, SKIP3=1, ncases=32)))
 HARNESSES.append(_h('c16_shared_nolib', 'two classes in one library; a global class without library name; function in a class library',
-                    '3 global classes with libraries a,a,b / a,(none),b (thorough: also a,b,a and a,b,c + function in a); dependency sets of a slice of the codes',
+                    '3 global classes with libraries a,a,b (thorough; quick-sized variant: a,a,b and a,(none),b) and a,b,c + a function in library a; dependency sets of a slice of the codes',
                     dict(NT=3, LIBSETS='aab-;a-b-', CODE_FROM=30, CODE_TO=35, SKIP3=1, ncases=8),
-                    dict(NT=3, LIBSETS='aab-;aba-;a-b-;abca', CODE_FROM=25, CODE_TO=50, SKIP3=1, ncases=64)))
+                    dict(NT=3, LIBSETS='aab-;abca', CODE_FROM=25, CODE_TO=50, SKIP3=1, ncases=32), tiers=('thorough',)))
 HARNESSES.append(_h('c16_foreign_module', 'a class of the module derives from a global class of ANOTHER module present in the same database',
                     '3 global classes in libraries a,b,c, the class in b (thorough: or a) belongs to another module; dependency sets of the first class (thorough: first two)',
                     dict(NT=3, LIBSETS='aBc-', CODE_FROM=0, CODE_TO=5, SKIP3=1, ncases=4),
